@@ -56,7 +56,11 @@ LEVEL_TEXT = ("Lean 4 theorems over the executable legalization model: circuit-l
               "evaluated negations for orderingWidth = 2 (KF-C11-1) and orderingHeight = 2^30 (KF-C11-2), both replayed on the code. "
               "Tied to Circuit::legalize by a differential stream of legal placements (KF-C11-2 class, cell order, legalize, legalize "
               "again) with parameters over the whole accepted range incl. |orderingHeight| up to 2^40; the direct oracle compares x/y "
-              "before and after on the real code and demands that every moved case is in the class of KF-C11-1 or KF-C11-2")
+              "before and after on the real code and demands that every moved case is in the class of KF-C11-1 or KF-C11-2. One "
+              "case in three feeds the legal placement to a Circuit object with a past (same circuit with a fixed obstruction elsewhere / "
+              "turned / resized, other flags or rows; it computed its rows and at times legalized, then was restored through the needed "
+              "setters only -- setCellX, setCellY, setSolution, setCellOrientation, setupRows ... each the sole restorer at times; "
+              "counters history_*): the placement is legal for the circuit as it is now, so no cell may move whatever the object saw before")
 LEVEL_NOTE = ("Trusted: Lean kernel (axioms propext/Classical.choice/Quot.sound only), the model's tie to the code (differential), "
               "unbounded Int, f32 model of binary32. Known findings KF-C11-1 (orderingWidth outside [0,1]) and KF-C11-2 (binary32 key "
               "ties under unbounded orderingHeight) are classified from the input, not fixed; the property as stated ('all parameter "
